@@ -185,3 +185,89 @@ pub fn reference_gauss_newton(reqs: &[ConstraintRequest], x0: &[f64], tol: f64, 
     }
     None
 }
+
+/// Singular values of the central-difference Jacobian of the real error measures at `x` (no use of
+/// the implementation's derivative code or its SVD): square roots of the eigenvalues of `J Jᵀ`,
+/// cyclic Jacobi rotations, descending.
+pub fn fd_singular_values(reqs: &[ConstraintRequest], x: &[f64]) -> Vec<f64> {
+    use kcl_ezpz::verif_hooks as vh;
+    let n = x.len();
+    let residual = |x: &[f64]| -> Vec<f64> {
+        let mut r = Vec::new();
+        for q in reqs {
+            let (res, _) = vh::residual(q.constraint(), x);
+            for k in 0..vh::residual_dim(q.constraint()) {
+                r.push(res[k]);
+            }
+        }
+        r
+    };
+    let m = residual(x).len();
+    let mut jac = vec![vec![0.0f64; n]; m];
+    let mut used = vec![false; n];
+    for q in reqs {
+        for id in vh::nonzeroes(q.constraint()).into_iter().flatten() {
+            if (id as usize) < n {
+                used[id as usize] = true;
+            }
+        }
+    }
+    for j in 0..n {
+        if !used[j] {
+            continue;
+        }
+        let h = 1e-6 * x[j].abs().max(1.0);
+        let (mut xp, mut xm) = (x.to_vec(), x.to_vec());
+        xp[j] += h;
+        xm[j] -= h;
+        let (rp, rm) = (residual(&xp), residual(&xm));
+        for i in 0..m {
+            jac[i][j] = (rp[i] - rm[i]) / (2.0 * h);
+        }
+    }
+    let mut a = vec![vec![0.0f64; m]; m];
+    for p in 0..m {
+        for q in 0..m {
+            a[p][q] = (0..n).map(|j| jac[p][j] * jac[q][j]).sum();
+        }
+    }
+    for _sweep in 0..60 {
+        let off: f64 = (0..m).map(|p| (0..m).filter(|q| *q != p).map(|q| a[p][q] * a[p][q]).sum::<f64>()).sum();
+        let diag: f64 = (0..m).map(|p| a[p][p] * a[p][p]).sum();
+        if off <= 1e-28 * diag.max(1e-300) {
+            break;
+        }
+        for p in 0..m {
+            for q in p + 1..m {
+                if a[p][q].abs() < 1e-300 {
+                    continue;
+                }
+                let theta = (a[q][q] - a[p][p]) / (2.0 * a[p][q]);
+                let t = theta.signum() / (theta.abs() + (theta * theta + 1.0).sqrt());
+                let t = if theta == 0.0 { 1.0 } else { t };
+                let c = 1.0 / (t * t + 1.0).sqrt();
+                let s = t * c;
+                for k in 0..m {
+                    let (akp, akq) = (a[k][p], a[k][q]);
+                    a[k][p] = c * akp - s * akq;
+                    a[k][q] = s * akp + c * akq;
+                }
+                for k in 0..m {
+                    let (apk, aqk) = (a[p][k], a[q][k]);
+                    a[p][k] = c * apk - s * aqk;
+                    a[q][k] = s * apk + c * aqk;
+                }
+            }
+        }
+    }
+    let mut sv: Vec<f64> = (0..m).map(|p| a[p][p].max(0.0).sqrt()).collect();
+    sv.sort_by(|x, y| y.partial_cmp(x).unwrap_or(std::cmp::Ordering::Equal));
+    sv
+}
+
+/// Numerical rank of [`fd_singular_values`]: singular values above `rel * sigma_max`.
+pub fn fd_rank(reqs: &[ConstraintRequest], x: &[f64], rel: f64) -> usize {
+    let sv = fd_singular_values(reqs, x);
+    let smax = sv.first().copied().unwrap_or(0.0);
+    sv.iter().filter(|s| **s > rel * smax && **s > 0.0).count()
+}
